@@ -129,7 +129,8 @@ def flags_case(work, tools, rng, comp, bs):
         bad.append(("flag-nosparse", "nosparse file has sparse blocks"))
     if not any(sz == 0 for (sz, c) in d["sp"]["blocks"]):
         bad.append(("flag-nosparse-leak", "unlisted file lost its sparse blocks"))
-    if d["dd3"]["start"] == d["dd1"]["start"] or d["dd1"]["start"] != d["dd2"]["start"]:
+    # dd3 must have storage of its own; the flag must not change whether the unlisted twins dd1 / dd2 share (judged against the run without sort file)
+    if d["dd3"]["start"] == d["dd1"]["start"] or (base["dd1"]["start"] == base["dd2"]["start"] and d["dd1"]["start"] != d["dd2"]["start"]):
         bad.append(("flag-dont_deduplicate", "dont_deduplicate not honoured / leaked: starts %s %s %s"
                     % (d["dd1"]["start"], d["dd2"]["start"], d["dd3"]["start"])))
     for n in ("plain", "sp", "small", "dd1", "dd2"):
@@ -161,6 +162,7 @@ def flags_case(work, tools, rng, comp, bs):
 def run(tier):
     ev = Evidence(PID, tier, "model_checking")
     rep = Reporter(PID, ev)
+    bpbind.JUDGE = {"flags", "integrity_flagged", "size"}          # a check raises alarms for its own property only
     work = scratch("c17")
     tools = build.build("plain") + "/bin"
     rng = random.Random(SEED)
